@@ -3,7 +3,8 @@ import Ibx.Model.Wild
 import Ibx.Model.Addr
 import Ibx.Model.Policy
 import Ibx.Model.ParseIP
-/- Stateless handlers: wild, glob, addr.*, policy, parseip. -/
+import Ibx.Model.MailArgs
+/- Stateless handlers: wild, glob, addr.*, policy, parseip, mailre, parseargs. -/
 namespace Driver
 open Ibx Ibx.Model
 
@@ -42,6 +43,10 @@ def showOpt (o : Option Bytes) : String :=
 
 def showOpt2 (o : Option (Bytes × Bytes)) : String :=
   match o with | some (a, b) => s!"ok {Bytes.toHex a} {Bytes.toHex b}" | none => "err"
+
+/-- `k:v,k:v` in hex (`_` = no pair) -/
+def showPairs (ps : List (Bytes × Bytes)) : String :=
+  if ps.isEmpty then "_" else ",".intercalate (ps.map fun p => s!"{Bytes.toHex p.1}:{Bytes.toHex p.2}")
 
 def parseCfg (kv : KV) : Option Policy.Cfg := do
   let da ← (kv.get? "da") >>= boolOf
@@ -118,6 +123,14 @@ def pureHandler (toks : List String) : Option String :=
   | ["parseips", hs] =>
     match hexList hs with
     | some ss => some (",".intercalate (ss.map showParseIP))
+    | none => some "bad-op"
+  | ["mailre", a] =>       -- fromRegex.FindStringSubmatch: `ok <m[1]> <m[2]>` or `err` (nil)
+    match Bytes.ofHex a with
+    | some a => some (showOpt2 (MailArgs.mailRe a))
+    | none => some "bad-op"
+  | ["parseargs", a] =>    -- ` (\w+)=(\w+|<>)` FindAllStringSubmatch: `some k:v,…` in order, keys as written, or `none`
+    match Bytes.ofHex a with
+    | some a => some (match MailArgs.parseArgs a with | some ps => s!"some {showPairs ps}" | none => "none")
     | none => some "bad-op"
   | ["policy", which, d] =>
     match parseCfg kv, Bytes.ofHex d with
